@@ -5,6 +5,7 @@ import (
 	"go/token"
 	"go/types"
 
+	"golang.org/x/tools/go/callgraph"
 	"golang.org/x/tools/go/ssa"
 
 	"wtfverif/checker/internal/load"
@@ -204,17 +205,34 @@ func lenVsCapacity(v ssa.Value) (token.Token, bool) {
 func c12Capacity(env *lruEnv, newFn *ssa.Function) {
 	c, r := env.c, env.c.R
 	put := env.methods["Put"]
-	pd := ssau.NewPostDom(put)
-	var pushes []*ssa.Call
-	ssau.ForEachInstr(put, false, func(in ssa.Instruction) {
-		if call, ok := in.(*ssa.Call); ok {
-			for _, t := range lruTag(call) {
-				if t == "list.PushFront" || t == "list.PushOther" {
-					pushes = append(pushes, call)
+	findPushes := func(fn *ssa.Function) []*ssa.Call {
+		var out []*ssa.Call
+		ssau.ForEachInstr(fn, false, func(in ssa.Instruction) {
+			if call, ok := in.(*ssa.Call); ok {
+				for _, t := range lruTag(call) {
+					if t == "list.PushFront" || t == "list.PushOther" {
+						out = append(out, call)
+					}
 				}
 			}
-		}
-	})
+		})
+		return out
+	}
+	pushes := findPushes(put)
+	if len(pushes) == 0 {
+		// the insertion lives in a helper Put calls on the same cache: the
+		// capacity rule is then checked there
+		ssau.ForEachInstr(put, false, func(in ssa.Instruction) {
+			if call, ok := in.(*ssa.Call); ok && len(pushes) == 0 {
+				if h := call.Common().StaticCallee(); h != nil && h != put && env.isLRUMethod(h) && len(h.Blocks) > 0 {
+					if ps := findPushes(h); len(ps) > 0 {
+						put, pushes = h, ps
+					}
+				}
+			}
+		})
+	}
+	pd := ssau.NewPostDom(put)
 	r.Floor("O-1", "insertions in Put", len(pushes), 1)
 	// capacity tests in Put
 	type capIf struct {
@@ -684,7 +702,117 @@ const (
 //
 //	ttl > 0            -> (expTTLPositive, falseSideSafe)
 //	since(CreatedAt) > ttl, now.Sub(CreatedAt) > ttl (also >=) -> (expExpired, falseSideSafe)
+// c12CG is the call graph (set by c12Expiry) used to resolve a `now`
+// parameter to what its callers pass.
+var c12CG *callgraph.Graph
+
+// c12IsNow: v is time.Now(), or a parameter to which every caller passes
+// such a value (a clock reading taken by the caller for this operation).
+func c12IsNow(v ssa.Value, d int) bool {
+	if call, ok := v.(*ssa.Call); ok {
+		return ssau.CallName(call) == "time.Now"
+	}
+	p, ok := v.(*ssa.Parameter)
+	if !ok || c12CG == nil || d > 2 {
+		return false
+	}
+	fn := p.Parent()
+	idx := -1
+	for i, q := range fn.Params {
+		if q == p {
+			idx = i
+		}
+	}
+	node := c12CG.Nodes[fn]
+	if node == nil || idx < 0 {
+		return false
+	}
+	n := 0
+	for _, e := range node.In {
+		if e.Caller.Func.Synthetic != "" {
+			continue
+		}
+		args := e.Site.Common().Args
+		if idx >= len(args) || !c12IsNow(args[idx], d+1) {
+			return false
+		}
+		n++
+	}
+	return n > 0
+}
+
+// c12ExpiryPreds: boolean helpers of the cache that answer exactly
+// "ttl > 0 && age(CreatedAt) > ttl" for the entry they are given (filled by
+// c12Expiry before the rules run).
+var c12ExpiryPreds = map[*ssa.Function]bool{}
+
+// exactExpiryPredicate: every return of h is the constant false reached only
+// on a not-expired side, or the age comparison itself evaluated only where
+// ttl > 0 holds (or a merge of such values).
+func exactExpiryPredicate(h *ssa.Function) bool {
+	if h.Signature.Results().Len() != 1 || len(h.Blocks) == 0 {
+		return false
+	}
+	if b, ok := h.Signature.Results().At(0).Type().Underlying().(*types.Basic); !ok || b.Kind() != types.Bool {
+		return false
+	}
+	safe := map[[2]int]bool{}   // edges on which the entry is known not expired
+	ttlPos := map[[2]int]bool{} // edges on which ttl > 0 is known
+	for _, i := range ssau.Ifs(h) {
+		k, safeThen, _ := classifyExpiry(i.Cond)
+		if k == expNone {
+			continue
+		}
+		idx := 1
+		if safeThen {
+			idx = 0
+		}
+		safe[[2]int{i.Block().Index, idx}] = true
+		if k == expTTLPositive {
+			ttlPos[[2]int{i.Block().Index, 1 - idx}] = true
+		}
+	}
+	var okVal func(v ssa.Value, blk *ssa.BasicBlock, viaSafe, viaPos bool, d int) bool
+	okVal = func(v ssa.Value, blk *ssa.BasicBlock, viaSafe, viaPos bool, d int) bool {
+		if ssau.IsConstBool(v, false) {
+			return viaSafe || (len(safe) > 0 && !ssau.ReachableAvoidingEdges(h, blk, safe))
+		}
+		if k, safeThen, _ := classifyExpiry(v); k == expExpired && !safeThen {
+			return viaPos || (len(ttlPos) > 0 && !ssau.ReachableAvoidingEdges(h, blk, ttlPos))
+		}
+		if phi, ok := v.(*ssa.Phi); ok && d < 3 {
+			for i, e := range phi.Edges {
+				p := phi.Block().Preds[i]
+				vs, vp := false, false
+				for k, sc := range p.Succs {
+					if sc == phi.Block() {
+						vs = vs || safe[[2]int{p.Index, k}]
+						vp = vp || ttlPos[[2]int{p.Index, k}]
+					}
+				}
+				if !okVal(e, p, vs, vp, d+1) {
+					return false
+				}
+			}
+			return true
+		}
+		return false
+	}
+	rets := ssau.ReturnsOf(h)
+	for _, ret := range rets {
+		if !okVal(ret.Results[0], ret.Block(), false, false, 0) {
+			return false
+		}
+	}
+	return len(rets) > 0
+}
+
 func classifyExpiry(cond ssa.Value) (kind expKind, safeThen bool, detail string) {
+	if call, ok := cond.(*ssa.Call); ok {
+		if h := call.Common().StaticCallee(); h != nil && c12ExpiryPreds[h] {
+			return expExpired, false, ""
+		}
+	}
 	op, x, y, ok := ssau.CondOf(cond)
 	if !ok {
 		return expNone, false, ""
@@ -705,7 +833,7 @@ func classifyExpiry(cond ssa.Value) (kind expKind, safeThen bool, detail string)
 				return false, "age is measured from AccessedAt, so a value read often never expires although it was stored longer ago than the lifetime"
 			}
 		case "(time.Time).Sub":
-			if nowc, ok := a[0].(*ssa.Call); ok && ssau.CallName(nowc) == "time.Now" {
+			if c12IsNow(a[0], 0) {
 				if _, ok := ssau.IsFieldLoad(a[1], entryType, "CreatedAt"); ok {
 					return true, ""
 				}
@@ -752,6 +880,13 @@ func classifyExpiry(cond ssa.Value) (kind expKind, safeThen bool, detail string)
 func c12Expiry(env *lruEnv, all []*ssa.Function) {
 	c, r := env.c, env.c.R
 	get := env.methods["Get"]
+	c12CG = c.P.CallGraph()
+	c12ExpiryPreds = map[*ssa.Function]bool{}
+	for _, fn := range allLRUFuncs(env) {
+		if exactExpiryPredicate(fn) {
+			c12ExpiryPreds[fn] = true
+		}
+	}
 	cut := map[[2]int]bool{}
 	nExp := 0
 	var why string
@@ -877,6 +1012,16 @@ func c12Expiry(env *lruEnv, all []*ssa.Function) {
 // expiryElement returns the list element whose entry's CreatedAt the
 // comparison reads, if identifiable.
 func expiryElement(cond ssa.Value) ssa.Value {
+	if call, ok := cond.(*ssa.Call); ok {
+		if h := call.Common().StaticCallee(); h != nil && c12ExpiryPreds[h] {
+			for _, a := range call.Common().Args[1:] {
+				if el := entryOfElement(a); el != nil {
+					return el
+				}
+			}
+			return nil
+		}
+	}
 	_, x, y, ok := ssau.CondOf(cond)
 	if !ok {
 		return nil
@@ -1037,67 +1182,103 @@ func c12Latest(env *lruEnv) {
 		good := ok && entryOfElement(base) != nil && isItemsLookup(entryOfElement(base), get.Params[1])
 		r.Check(good, "O-6", "cache.(*LRUCache).Get#hit-value", c.P.Pos(ret.Pos()), "returns items[key]'s Entry.Value", "the hit result is not the Value field of the entry found under the key")
 	}
-	// Put: on the exists branch the new value is stored into that entry's Value
-	cd := ssau.ControlDeps(put)
-	found := false
+	// Put's work may be split into helpers on the same cache (updateEntry,
+	// insertEntry): a site is Put itself or such a helper together with the
+	// call that passes Put's values to it
+	type site struct {
+		fn  *ssa.Function
+		via *ssa.Call
+	}
+	sites := []site{{put, nil}}
 	ssau.ForEachInstr(put, false, func(in ssa.Instruction) {
-		st, ok := in.(*ssa.Store)
-		if !ok {
-			return
-		}
-		fa, ok := ssau.IsFieldAddr(st.Addr, entryType, "Value")
-		if !ok {
-			return
-		}
-		el := entryOfElement(fa.X)
-		if el == nil || !isItemsLookup(el, put.Params[1]) {
-			return
-		}
-		if st.Val != ssa.Value(put.Params[2]) {
-			return
-		}
-		// control dependent on the lookup's ok being true
-		for _, d := range ssau.TransitiveControlDeps(cd, st.Block()) {
-			if ex, ok := d.If().Cond.(*ssa.Extract); ok && ex.Index == 1 && d.Then {
-				if lk, ok := ex.Tuple.(*ssa.Lookup); ok && isLRULoad(lk.X, "items") {
-					found = true
-				}
+		if call, ok := in.(*ssa.Call); ok {
+			if h := call.Common().StaticCallee(); h != nil && h != put && env.isLRUMethod(h) && len(h.Blocks) > 0 {
+				sites = append(sites, site{h, call})
 			}
 		}
 	})
+	resolve := func(s site, v ssa.Value) ssa.Value {
+		if s.via == nil {
+			return v
+		}
+		for i, p := range s.fn.Params {
+			if v == ssa.Value(p) && i < len(s.via.Common().Args) {
+				return s.via.Common().Args[i]
+			}
+		}
+		return v
+	}
+	// Put: on the exists branch the new value is stored into that entry's Value
+	cdPut := ssau.ControlDeps(put)
+	found := false
+	for _, s := range sites {
+		s := s
+		ssau.ForEachInstr(s.fn, false, func(in ssa.Instruction) {
+			st, ok := in.(*ssa.Store)
+			if !ok {
+				return
+			}
+			fa, ok := ssau.IsFieldAddr(st.Addr, entryType, "Value")
+			if !ok {
+				return
+			}
+			el := entryOfElement(fa.X)
+			if el == nil || !isItemsLookup(resolve(s, el), put.Params[1]) {
+				return
+			}
+			if resolve(s, st.Val) != ssa.Value(put.Params[2]) {
+				return
+			}
+			// control dependent on the lookup's ok being true
+			blk := st.Block()
+			if s.via != nil {
+				blk = s.via.Block()
+			}
+			for _, d := range ssau.TransitiveControlDeps(cdPut, blk) {
+				if ex, ok := d.If().Cond.(*ssa.Extract); ok && ex.Index == 1 && d.Then {
+					if lk, ok := ex.Tuple.(*ssa.Lookup); ok && isLRULoad(lk.X, "items") {
+						found = true
+					}
+				}
+			}
+		})
+	}
 	r.Check(found, "O-6", "cache.(*LRUCache).Put#update-value", c.P.Pos(put.Pos()), "existing key: entry.Value = value", "Put on an existing key does not store the new value into the entry Get reads")
 	// Put: new entry carries key and value parameters
 	okNew := false
-	ssau.ForEachInstr(put, false, func(in ssa.Instruction) {
-		call, ok := in.(*ssa.Call)
-		if !ok || ssau.CallName(call) != listNew+"PushFront" {
-			return
-		}
-		al, ok := ssau.Strip(call.Common().Args[1]).(*ssa.Alloc)
-		if !ok {
-			return
-		}
-		var kOK, vOK bool
-		for _, ref := range *al.Referrers() {
-			fa, ok := ref.(*ssa.FieldAddr)
-			if !ok {
-				continue
+	for _, s := range sites {
+		s := s
+		ssau.ForEachInstr(s.fn, false, func(in ssa.Instruction) {
+			call, ok := in.(*ssa.Call)
+			if !ok || ssau.CallName(call) != listNew+"PushFront" {
+				return
 			}
-			for _, rr := range *fa.Referrers() {
-				st, ok := rr.(*ssa.Store)
-				if !ok || st.Addr != ssa.Value(fa) {
+			al, ok := ssau.Strip(call.Common().Args[1]).(*ssa.Alloc)
+			if !ok {
+				return
+			}
+			var kOK, vOK bool
+			for _, ref := range *al.Referrers() {
+				fa, ok := ref.(*ssa.FieldAddr)
+				if !ok {
 					continue
 				}
-				switch ssau.FieldName(fa) {
-				case "Key":
-					kOK = st.Val == ssa.Value(put.Params[1])
-				case "Value":
-					vOK = st.Val == ssa.Value(put.Params[2])
+				for _, rr := range *fa.Referrers() {
+					st, ok := rr.(*ssa.Store)
+					if !ok || st.Addr != ssa.Value(fa) {
+						continue
+					}
+					switch ssau.FieldName(fa) {
+					case "Key":
+						kOK = resolve(s, st.Val) == ssa.Value(put.Params[1])
+					case "Value":
+						vOK = resolve(s, st.Val) == ssa.Value(put.Params[2])
+					}
 				}
 			}
-		}
-		okNew = kOK && vOK
-	})
+			okNew = okNew || (kOK && vOK)
+		})
+	}
 	r.Check(okNew, "O-6", "cache.(*LRUCache).Put#new-entry", c.P.Pos(put.Pos()), "new entry stores the key and value parameters", "the entry pushed by Put does not carry Put's key and value")
 	_ = types.Typ
 }
